@@ -6,6 +6,7 @@ import (
 	"math/rand"
 	"os"
 	"path/filepath"
+	"sort"
 	"strings"
 	"sync"
 	"time"
@@ -172,7 +173,9 @@ func concEngine() {
 			fl = bolt.FreelistMapType
 		}
 		nG := 2 + ri%7
+		inFlight("conc", map[string]any{"seed": seed, "goroutines": nG, "freelist": string(fl), "note": "re-run `vh conc -seed <engine seed>`: the run is determined by the seed up to goroutine scheduling"})
 		recs, first, final, overlap, hung := concRun(dir, seed, nG, 60, fl)
+		inFlight("conc", nil)
 		rep.Programs++
 		rep.Evaluations += len(recs)
 		commits := 0
@@ -229,5 +232,55 @@ func concEngine() {
 			}
 		}
 	}
+	// Close concurrent with readers: a reader is open, Close is called, a new reader arrives while
+	// Close waits, then the first reader ends — every call must return (no lock-order deadlock)
+	for ri := 0; ri < 6; ri++ {
+		if msg := closeRace(dir, *flagSeed*100+int64(ri)); msg != "" {
+			rep.violation("C03", "monitor", "close-race-hang", msg, map[string]any{"scenario": "reader open; Close; new View arrives while Close waits; first reader ends; Update", "round": ri})
+		}
+		rep.Evaluations++
+		rep.count("close-race")
+	}
 	rep.finish(start)
+}
+
+func closeRace(dir string, seed int64) string {
+	path := filepath.Join(dir, fmt.Sprintf("close%d.db", seed))
+	_ = os.Remove(path)
+	db, err := bolt.Open(path, 0o600, &bolt.Options{Timeout: time.Second})
+	if err != nil {
+		return ""
+	}
+	_ = db.Update(func(tx *bolt.Tx) error { _, e := tx.CreateBucketIfNotExists([]byte("c")); return e })
+	r1, err := db.Begin(false)
+	if err != nil {
+		return ""
+	}
+	type res struct {
+		name string
+	}
+	done := make(chan string, 8)
+	go func() { _ = db.Close(); done <- "Close" }()
+	time.Sleep(time.Duration(20+seed%30) * time.Millisecond)
+	go func() { _ = db.View(func(tx *bolt.Tx) error { return nil }); done <- "View" }()
+	go func() { _ = db.Stats(); done <- "Stats" }()
+	time.Sleep(time.Duration(20+seed%20) * time.Millisecond)
+	go func() { _ = r1.Rollback(); done <- "r1.Rollback" }()
+	go func() { _ = db.Update(func(tx *bolt.Tx) error { return nil }); done <- "Update" }()
+	pending := map[string]bool{"Close": true, "View": true, "Stats": true, "r1.Rollback": true, "Update": true}
+	deadline := time.After(10 * time.Second)
+	for len(pending) > 0 {
+		select {
+		case n := <-done:
+			delete(pending, n)
+		case <-deadline:
+			var names []string
+			for n := range pending {
+				names = append(names, n)
+			}
+			sort.Strings(names)
+			return fmt.Sprintf("these calls never returned within 10 s: %v (reader open, Close called, new reader arrives while Close waits, first reader ends)", names)
+		}
+	}
+	return ""
 }
